@@ -18,6 +18,7 @@ package leveldb
 
 import (
 	"github.com/LemoFoundationLtd/lemochain-core/metrics"
+	"github.com/LemoFoundationLtd/lemochain-core/store/crashpoint"
 	gometrics "github.com/rcrowley/go-metrics"
 	"github.com/syndtr/goleveldb/leveldb"
 	"github.com/syndtr/goleveldb/leveldb/errors"
@@ -107,6 +108,8 @@ func (db *LevelDBDatabase) Put(key []byte, value []byte) error {
 	if db.writeMeter != nil {
 		db.writeMeter.Mark(int64(len(value)))
 	}
+	crashpoint.Hit("leveldb-put", "")
+	defer crashpoint.Hit("leveldb-put-done", "")
 	return db.db.Put(key, value, nil)
 }
 
